@@ -3,6 +3,7 @@ import BbRe.Lemmas.SchedLiveResp
 import BbRe.Lemmas.SchedLiveTerm
 import BbRe.Lemmas.SchedLiveSleep
 import BbRe.Lemmas.SchedLiveWaiters3
+import BbRe.Lemmas.SchedLiveProgress2
 /-!
 # C02 — each waiter gets exactly one faithful final result
 
@@ -121,7 +122,7 @@ theorem completed_stream_wakes (s : State) (hs : Reachable s) (h : Hints) (c : N
   have hne : t.gen ≠ st.snap := by omega
   refine ⟨sendDone s c st.op op t r, ?_, by simp [stage_of_resp hr]⟩
   simp [streamWake, enter, hst, hop, ht, hne, streamSend, hr, hw, sendDone, bind, Except.bind, pure, Except.pure,
-    dropStream]
+    dropStream, -BbRe.Lemmas.SchedInv.task?_def, -BbRe.Lemmas.SchedInv.op?_def]
 
 /-- **A parked stream's operation cannot disappear under it**: in every reachable state the operation of
 every parked stream exists, counts a waiter, and its task exists (the no-waiter cleanup only removes
@@ -262,6 +263,109 @@ theorem stage_monotone_run (s : State) (hs : Reachable s) (gs : List Seg) (hg : 
 
 /-- non-vacuity: the demo moves task 1 through EXECUTING to COMPLETED. -/
 example : ∃ t, sDemo.task? 1 = some t ∧ t.stage = 4 := ⟨_, rfl, by decide⟩
+
+/-! ## (f) progress: every parked stream eventually receives `done`
+
+The *fair completion schedule*: enabled wake-ups are delivered, the workers stop synchronizing, and the
+clock advances beyond the cleanup deadlines.  `no_lost_wakeup` says that the stream of a completed task is
+enabled; the theorems below say how the task gets completed and count the segments.  The only parked
+streams for which the schedule does not produce `done` are those whose task is queued with no worker
+on a queue that is never removed (a predeclared platform queue) — there the code, too, waits for a worker
+for ever; `eventually_done` states this alternative explicitly. -/
+
+/-- states of the demo history: after the hand-off to the parked worker (3 segments), and after the worker
+has picked the task up (4 segments); client 1 is parked in both. -/
+def sHandoff : State := run (State.init cfg) (demo.take 3)
+def sExecuting : State := run (State.init cfg) (demo.take 4)
+theorem sHandoff_reachable : Reachable sHandoff := reachable_run (Reachable.init cfg) _
+theorem sExecuting_reachable : Reachable sExecuting := reachable_run (Reachable.init cfg) _
+
+/-- **eventually_done, completed task** (1 segment).  The stream of a client parked on an operation whose
+task is completed is enabled for the stage-change wake-up, and delivering it sends `done` with the stored
+response and returns the call. -/
+theorem eventually_done_completed {s : State} (hs : Reachable s) (h : Hints) {c : Nat} {st : Stream}
+    (hst : s.streams.find? (fun x => x.client = c) = some st)
+    (hdone : ∀ op t, s.op? st.op = some op → s.task? op.task = some t → t.response.isSome = true) :
+    ∃ s' op t r, s.op? st.op = some op ∧ s.task? op.task = some t ∧ t.response = some r ∧
+      streamWake h s s.now c 0 = .ok s' ∧
+      s'.events = .ret c cOK :: .msg c st.op 4 true r.code r.tok :: s.events :=
+  completed_wakes hs h hst hdone
+
+/-- **eventually_done, executing task** (2 segments).  The client `c` is parked on an operation whose task
+is held by a worker that is outside `Synchronize` and stays silent.  Then the worker has a cleanup entry,
+and for every time `T` at or beyond its deadline: the clock segment `touch T` sends nothing to `c`, and the
+stage-change wake-up of `c` after it sends `done` (the scheduler's "worker disappeared" response `r`) and
+returns the call. -/
+theorem eventually_done_executing {s : State} (hs : Reachable s) (h : Hints) {c : Nat} {st : Stream}
+    (hst : s.streams.find? (fun x => x.client = c) = some st) {op : Op} {t : Task}
+    (hop : s.op? st.op = some op) (ht : s.task? op.task = some t) {q : ScqId} {w : WId} {wk : Worker}
+    (htw : t.worker = some (q, w)) (hwk : s.worker? q w = some wk) (hout : wk.inSync = false) :
+    ∃ e ∈ s.cleanup, e.kind = .worker q w ∧ ∀ T, s.now < T → e.deadline ≤ T →
+      ∃ (r : Resp) (s1 : State), run s [.touch h T] = s1 ∧
+        s1.events.filter (isMsgOf c) = s.events.filter (isMsgOf c) ∧
+        (run s [.touch h T, .streamWake h T c 0]).events =
+          .ret c cOK :: .msg c st.op 4 true r.code r.tok :: s1.events :=
+  eventually_done_exec hs h hst hop ht htw hwk hout
+
+/-- non-vacuity: in `sExecuting` client 1 waits for task 1 on the silent worker; at time 200 it gets `done`
+with code 14 (UNAVAILABLE). -/
+example : ∃ st op t wk, sExecuting.streams.find? (fun x => x.client = 1) = some st ∧
+    sExecuting.op? st.op = some op ∧ sExecuting.task? op.task = some t ∧ t.worker = some (q, w) ∧
+    sExecuting.worker? q w = some wk ∧ wk.inSync = false := ⟨_, _, _, _, rfl, rfl, rfl, rfl, rfl, rfl⟩
+example : (run sExecuting [.touch h0 200, .streamWake h0 200 1 0]).events.take 2 =
+    [.ret 1 cOK, .msg 1 1 4 true 14 0] := rfl
+
+/-- **eventually_done, hand-off pending** (3 segments).  The task was handed to a worker blocked in
+`Synchronize` whose wake-up is still pending (`woken`): delivering it makes the worker leave `Synchronize`
+with the task; from the resulting state `s0` the previous theorem applies. -/
+theorem eventually_done_handoff {s : State} (hs : Reachable s) (h : Hints) {c : Nat} {st : Stream}
+    (hst : s.streams.find? (fun x => x.client = c) = some st) {op : Op} {t : Task}
+    (hop : s.op? st.op = some op) (ht : s.task? op.task = some t) {q : ScqId} {w : WId} {wk : Worker}
+    (htw : t.worker = some (q, w)) (hwk : s.worker? q w = some wk) (hwo : wk.woken = true) :
+    ∃ s0, run s [.syncWake h s.now q w 0] = s0 ∧ Reachable s0 ∧ s0.now = s.now ∧
+      ∃ e ∈ s0.cleanup, e.kind = .worker q w ∧ ∀ T, s.now < T → e.deadline ≤ T →
+        ∃ (r : Resp) (s1 : State), run s0 [.touch h T] = s1 ∧
+          (run s [.syncWake h s.now q w 0, .touch h T, .streamWake h T c 0]).events =
+            .ret c cOK :: .msg c st.op 4 true r.code r.tok :: s1.events :=
+  BbRe.Lemmas.SchedLive.eventually_done_handoff hs h hst hop ht htw hwk hwo
+
+example : ∃ st op t wk, sHandoff.streams.find? (fun x => x.client = 1) = some st ∧
+    sHandoff.op? st.op = some op ∧ sHandoff.task? op.task = some t ∧ t.worker = some (q, w) ∧
+    sHandoff.worker? q w = some wk ∧ wk.woken = true := ⟨_, _, _, _, rfl, rfl, rfl, rfl, rfl, rfl⟩
+example : (run sHandoff [.syncWake h0 sHandoff.now q w 0, .touch h0 200, .streamWake h0 200 1 0]).events.take 2 =
+    [.ret 1 cOK, .msg 1 1 4 true 14 0] := rfl
+
+/-- **eventually_done** (general form).  From every reachable state, run the settling schedule `settle`:
+every blocked `Synchronize` call returns and no worker calls again, and the clock is advanced beyond all
+armed cleanup deadlines, again and again until no cleanup entry is left.  Afterwards no worker, no cleanup
+entry and no removable queue exists, every parked stream is still parked, and for every parked stream `st`
+of a client `c`: either its task is completed and delivering the stage-change wake-up sends `done` and
+returns the call, or the task is queued without a worker — on one of the remaining, never-removed queues —
+waiting for a worker to appear. -/
+theorem eventually_done {s : State} (hs : Reachable s) {c : Nat} {st : Stream}
+    (hst : s.streams.find? (fun x => x.client = c) = some st) :
+    Reachable (settle s) ∧ (settle s).workers = [] ∧ (settle s).cleanup = [] ∧
+    (∀ q sq, (settle s).scq? q = some sq → sq.mayBeRemoved = false) ∧
+    (settle s).streams = s.streams ∧
+    ∃ op t, (settle s).op? st.op = some op ∧ (settle s).task? op.task = some t ∧
+      ((∃ r, t.response = some r ∧
+          (run (settle s) [.streamWake qh (settle s).now c 0]).events =
+            .ret c cOK :: .msg c st.op 4 true r.code r.tok :: (settle s).events) ∨
+       (t.response = none ∧ t.worker = none ∧ t.queued = true)) :=
+  settle_spec hs hst
+
+/-- **eventually_done, bound.**  The settling schedule is a run of at most
+`#workers + (#workers + #operations + #queues) + 1` segments: one per worker and at most one clock segment
+per object (every clock segment that finds a cleanup entry removes an object), the counts taken after the
+workers have left `Synchronize`. -/
+theorem eventually_done_bound (s : State) :
+    ∃ gs : List Seg, settle s = run s gs ∧
+      gs.length ≤ s.workers.length + objCount (run s (syncSegs s.now (s.workers.map wkey))) + 1 :=
+  settle_bound s
+
+/-- non-vacuity: settling `sHandoff` completes task 1 (the worker is removed), and client 1 gets `done`. -/
+example : (run (settle sHandoff) [.streamWake qh (settle sHandoff).now 1 0]).events.take 2 =
+    [.ret 1 cOK, .msg 1 1 4 true 14 0] := rfl
 
 /-! ## (e) re-attach by name -/
 
